@@ -62,6 +62,8 @@ Qed.
    unfolding, unfold [check] first (the other order makes the kernel evaluate the
    symbolic search [explore] and does not terminate in reasonable time) *)
 Strategy expand [check].
+(* likewise: never unfold the 48-step canonical run while comparing terms that mention it *)
+Strategy opaque [canon].
 
 Lemma check_sound : forall c e sp, check c e sp = true ->
   forall sch, good_state c e (run_core c e (init_core c e sp) sch) = true.
@@ -81,12 +83,17 @@ Qed.
 
 (* components of good_state *)
 Lemma good_final : forall c e k o, good_state c e k = true -> k_res k = Some o ->
-  o = predict_outcome e /\ k_printed k = predict_printed e.
+  Some o = predict_outcome c e /\ k_printed k = predict_printed c e
+  /\ outcome_allowed e o = true /\ k_printed k = expected_printed e.
 Proof.
   intros c e k o H Hr. unfold good_state in H. rewrite Hr in H.
+  remember (predict_outcome c e) as po eqn:Epo. remember (predict_printed c e) as pp eqn:Epp.
+  clear Epo Epp.
   repeat (apply andb_true_iff in H; destruct H as [H ?]).
-  split.
-  - unfold outcome_eqb in H. destruct (outcome_eq_dec o (predict_outcome e)); [assumption|discriminate].
+  repeat split.
+  - unfold optout_eqb in H. destruct (optout_eq_dec (Some o) po); [assumption|discriminate].
+  - apply N.eqb_eq. assumption.
+  - assumption.
   - apply N.eqb_eq. assumption.
 Qed.
 
@@ -100,7 +107,7 @@ Proof.
 Qed.
 
 Lemma good_no_success : forall c e k, good_state c e k = true ->
-  k_completed k = false /\ k_m k <> MReturned /\ (k_printed k <= predict_printed e).
+  k_completed k = false /\ k_m k <> MReturned /\ (k_printed k <= expected_printed e).
 Proof.
   intros c e k H. unfold good_state in H.
   repeat (apply andb_true_iff in H; destruct H as [H ?]).
@@ -257,28 +264,28 @@ Proof.
   exact (check_sound gen_cfg _ sp (gen_check r x g d sp) (core_events sch)).
 Qed.
 
-(* prediction spelled out in terms of the errno *)
-Lemma predict_outcome_cases : forall r x g d,
-  let o := predict_outcome (fenv_of gen_cfg r x g d) in
-  (o = Exited 1 /\ ~ (g = true /\ d = true /\ (x = EPIPE \/ x = EFBIG)))
+(* what "allowed" means in terms of the errno *)
+Lemma allowed_cases : forall r x g d o,
+  outcome_allowed (fenv_of gen_cfg r x g d) o = true ->
+  o = Exited 1
   \/ (o = Killed SIGPIPE /\ x = EPIPE /\ g = true /\ d = true)
   \/ (o = Killed SIGXFSZ /\ x = EFBIG /\ g = true /\ d = true).
 Proof.
-  intros r x g d. unfold predict_outcome, fenv_of, sig_of_errno.
-  cbn [fe_sig fe_sig_default c_epipe c_efbig c_sigpipe c_sigxfsz gen_cfg].
-  destruct g.
-  - destruct (N.eqb_spec x EPIPE) as [->|H1].
-    + destruct d; [right; left; auto | left; split; [reflexivity | intros [_ [? _]]; discriminate]].
-    + destruct (N.eqb_spec x EFBIG) as [->|H2].
-      * destruct d; [right; right; auto | left; split; [reflexivity | intros [_ [? _]]; discriminate]].
-      * left. split; [reflexivity|]. intros [_ [_ [?|?]]]; contradiction.
-  - left. split; [reflexivity | intros [? _]; discriminate].
+  intros r x g d o H. destruct o as [n|s]; cbn [outcome_allowed] in H.
+  - left. apply N.eqb_eq in H. subst. reflexivity.
+  - unfold fenv_of, sig_of_errno in H.
+    cbn [fe_sig fe_sig_default c_epipe c_efbig c_sigpipe c_sigxfsz gen_cfg] in H.
+    destruct g; [|discriminate].
+    destruct (N.eqb_spec x EPIPE) as [->|H1].
+    + apply andb_true_iff in H. destruct H as [Hs Hd]. apply N.eqb_eq in Hs. subst. right; left; auto.
+    + destruct (N.eqb_spec x EFBIG) as [->|H2]; [|discriminate].
+      apply andb_true_iff in H. destruct H as [Hs Hd]. apply N.eqb_eq in Hs. subst. right; right; auto.
 Qed.
 
-Lemma predict_printed_spec : forall r x g d,
-  predict_printed (fenv_of gen_cfg r x g d) = if (N.eqb x EPIPE || N.eqb x EFBIG) then 0 else 1.
+Lemma expected_printed_spec : forall r x g d,
+  expected_printed (fenv_of gen_cfg r x g d) = if (N.eqb x EPIPE || N.eqb x EFBIG) then 0 else 1.
 Proof.
-  intros r x g d. unfold predict_printed, fenv_of. cbn [fe_logp fst c_logc gen_cfg].
+  intros r x g d. unfold expected_printed, fenv_of. cbn [fe_logp fst c_logc gen_cfg].
   rewrite def_log_cond_spec. cbn [negb orb].
   destruct (N.eqb x EPIPE || N.eqb x EFBIG); reflexivity.
 Qed.
@@ -286,13 +293,24 @@ Qed.
 (* ------------------------------------------------------------------ *)
 (* the C21 theorems                                                     *)
 (* ------------------------------------------------------------------ *)
-Lemma outcome_exact : forall r x g d sp others sch o,
+Lemma final_facts : forall r x g d sp others sch o,
   k_res (s_core (run_fault r x g d sp others sch)) = Some o ->
-  o = fst (predict r x g d) /\
-  k_printed (s_core (run_fault r x g d sp others sch)) = snd (predict r x g d).
+  Some o = fst (predict r x g d)
+  /\ k_printed (s_core (run_fault r x g d sp others sch)) = snd (predict r x g d)
+  /\ outcome_allowed (fenv_of gen_cfg r x g d) o = true
+  /\ k_printed (s_core (run_fault r x g d sp others sch)) = expected_printed (fenv_of gen_cfg r x g d).
 Proof.
   intros r x g d sp others sch o Hr. unfold predict. cbn [fst snd].
   exact (good_final gen_cfg _ _ o (gen_good r x g d sp others sch) Hr).
+Qed.
+
+Lemma outcome_exact : forall r x g d sp others sch o,
+  k_res (s_core (run_fault r x g d sp others sch)) = Some o ->
+  Some o = fst (predict r x g d) /\
+  k_printed (s_core (run_fault r x g d sp others sch)) = snd (predict r x g d).
+Proof.
+  intros r x g d sp others sch o Hr.
+  destruct (final_facts r x g d sp others sch o Hr) as [A [B _]]. split; assumption.
 Qed.
 
 Lemma outcome : forall r x g d sp others sch o,
@@ -303,13 +321,12 @@ Lemma outcome : forall r x g d sp others sch o,
   /\ o <> Exited 0
   /\ (k_printed (s_core (run_fault r x g d sp others sch)) = 0 <-> (x = EPIPE \/ x = EFBIG)).
 Proof.
-  intros r x g d sp others sch o Hr. destruct (outcome_exact r x g d sp others sch o Hr) as [Ho Hp].
-  unfold predict in Ho, Hp. cbn [fst snd] in Ho, Hp.
-  split; [|split].
-  - destruct (predict_outcome_cases r x g d) as [[H _]|[H|H]]; rewrite <- Ho in H; tauto.
-  - destruct (predict_outcome_cases r x g d) as [[H _]|[[H _]|[H _]]];
-      rewrite <- Ho in H; rewrite H; discriminate.
-  - rewrite Hp, predict_printed_spec.
+  intros r x g d sp others sch o Hr.
+  destruct (final_facts r x g d sp others sch o Hr) as [_ [_ [Ha Hp]]].
+  pose proof (allowed_cases r x g d o Ha) as Hc.
+  split; [exact Hc|split].
+  - destruct Hc as [H|[[H _]|[H _]]]; rewrite H; discriminate.
+  - rewrite Hp, expected_printed_spec.
     destruct (N.eqb_spec x EPIPE) as [->|H1]; cbn [orb].
     + split; auto.
     + destruct (N.eqb_spec x EFBIG) as [->|H2]; cbn [orb].
